@@ -263,3 +263,80 @@ Theorem model_holds_C06_chunks ls : Forall ends_lf (removelast ls) -> Forall byt
   | Err _ => holds_C06_error (concat ls) = true
   end.
 Proof. intros HF HB. rewrite (echo_source_chunking ls HF). apply model_holds_C06. exact HB. Qed.
+
+(* ---------- Lua.get_token_count *)
+Definition kw_ok (s : stok) : Prop := In (s_raw s) spec_keywords \/ s_kind s <> SKeyword.
+
+Lemma spec_step_keyword s t rest : spec_step s = Some (t, rest) -> kw_ok t.
+Proof.
+  intros H. unfold kw_ok. destruct s as [|c r]; [discriminate|]. unfold spec_step in H.
+  assert (Sym : forall x y, spec_symbol x = Some (t, y) -> s_kind t <> SKeyword).
+  { intros x y Hs. destruct (spec_symbol_inv _ _ _ Hs) as (z & _ & _ & -> & _). discriminate. }
+  assert (Num : forall x y, spec_number x = Some (t, y) -> s_kind t <> SKeyword).
+  { intros x y Hs. unfold spec_number in Hs. destruct (num_run (is_hex_prefix x) false x) as [run rs].
+    destruct (spec_numeral run) as [[n d]|]; [|discriminate]. inversion Hs; subst. discriminate. }
+  assert (Lc : forall x y, line_comment x = Some (t, y) -> s_kind t <> SKeyword).
+  { intros x y Hs. unfold line_comment in Hs. destruct (span _ x). inversion Hs; subst. discriminate. }
+  destruct (is_blank c). { destruct (span is_blank (c :: r)). inversion H; subst. right; discriminate. }
+  destruct (c =? 10). { inversion H; subst. right; discriminate. }
+  destruct (c =? 13).
+  { destruct r as [|y r']; [discriminate|]. rewrite match10 in H. destruct (y =? 10); [|discriminate].
+    inversion H; subst. right; discriminate. }
+  destruct (c =? 45).
+  { destruct r as [|y r2]; [right; eapply Sym; exact H|]. rewrite match45 in H.
+    destruct (y =? 45); [|right; eapply Sym; exact H].
+    destruct r2 as [|z r3]; [right; eapply Lc; exact H|]. rewrite match91 in H.
+    destruct (z =? 91); [|right; eapply Lc; exact H].
+    destruct (long_open r3 0) as [[lvl r4]|]; [|right; eapply Lc; exact H].
+    destruct (lvl =? 0); [|discriminate]. destruct (long_body 0 r4) as [[[b cl] rs]|]; [|discriminate].
+    inversion H; subst. right; discriminate. }
+  destruct (c =? 47).
+  { destruct r as [|y r2]; [right; eapply Sym; exact H|]. rewrite match47 in H.
+    destruct (y =? 47); [right; eapply Lc; exact H | right; eapply Sym; exact H]. }
+  destruct (c =? 91).
+  { destruct (long_open r 0) as [[lvl r2]|].
+    - destruct (long_body (Z.to_nat lvl) r2) as [[[b cl] rs]|]; [|discriminate]. inversion H; subst. right; discriminate.
+    - destruct r as [|y r2]; [right; eapply Sym; exact H|]. rewrite match61 in H.
+      destruct (y =? 61); [discriminate | right; eapply Sym; exact H]. }
+  destruct ((c =? 34) || (c =? 39)).
+  { destruct (unescape_until c r) as [[[v raw] rs]|]; [|discriminate]. inversion H; subst. right; discriminate. }
+  destruct (is_digit c); [right; eapply Num; exact H|].
+  destruct (c =? 46).
+  { destruct r as [|d r']; [right; eapply Sym; exact H|].
+    destruct (is_digit d); [right; eapply Num; exact H | right; eapply Sym; exact H]. }
+  destruct (is_name_start c).
+  { destruct (span is_name_char (c :: r)) as [a b]. destruct (mem_bytes a spec_keywords) eqn:M; inversion H; subst.
+    - left. apply mem_bytes_In. exact M.
+    - right. discriminate. }
+  destruct (c =? 58).
+  { destruct r as [|y r2]; [right; eapply Sym; exact H|]. rewrite match58 in H.
+    destruct (y =? 58); [|right; eapply Sym; exact H].
+    destruct (span is_name_char r2) as [a b]. destruct a as [|n0 a']; [discriminate|].
+    destruct (strip_prefix [58; 58] b); [|discriminate]. destruct (is_name_start n0); [|discriminate].
+    inversion H; subst. right; discriminate. }
+  destruct (c =? 63). { inversion H; subst. right; discriminate. }
+  right; eapply Sym; exact H.
+Qed.
+
+Lemma spec_toks_kw l c s ts : spec_toks l c s ts -> Forall kw_ok ts.
+Proof.
+  induction 1 as [l c | l c s t rest l' c' ts Es Hne Ha Hts IH]; [constructor|]. constructor; [|exact IH].
+  pose proof (spec_step_keyword s t rest Es) as K. unfold kw_ok, at_pos in *. exact K.
+Qed.
+
+Lemma token_count_agree ss : forall ts a, Forall2 agree ss ts -> Forall kw_ok ss ->
+  fold_left (fun a t => a + token_weight t) ts a = fold_left (fun a t => a + spec_token_weight_e t) ss a.
+Proof.
+  induction ss as [|s ss IH]; intros ts a Hag Hk; inversion Hag as [|? t ? ts' Hst Hag']; subst; [reflexivity|].
+  inversion Hk as [|? ? Hs Hk']; subst. cbn [fold_left]. rewrite (token_weight_agree s t Hst Hs). apply IH; assumption.
+Qed.
+
+(* Lua.get_token_count on the tokens of a source of the dialect is the counting rule applied to its reference tokens *)
+Theorem token_count_spec src ss : Forall byte src -> spec_lex src = Some ss ->
+  exists ts, model_lex [src] = Ok ts /\ token_count ts = spec_token_count_e ss.
+Proof.
+  intros HB H. destruct (lex_agrees src ss HB H) as (ts & Hm & Hag). exists ts. split; [exact Hm|].
+  unfold token_count, spec_token_count_e. apply token_count_agree; [exact Hag|].
+  unfold spec_lex in H. destruct (crlf_only src); [|discriminate].
+  destruct (spec_lex_fuel_toks _ _ _ _ _ _ H) as (ts' & -> & Hts). cbn [rev app]. apply (spec_toks_kw 0 0 src ts' Hts).
+Qed.
